@@ -23,6 +23,13 @@ def run(rep, tier, seed):
         gen = rnd.choice(STACK_GENS[stack])
         pkt, st = gen(rnd)
         bits = b2s(pkt)
+        if i % 4 == 0:
+            # the same long-lived parser object has just rejected (or not) a packet cut inside one of its later headers: nothing of
+            # that attempt may show in the next parse
+            other, _ = gen(rnd)
+            cut = other[:rnd.randint(max(1, len(other) - 12), len(other))] if rnd.random() < 0.5 else other[:rnd.randint(1, len(other))]
+            r_ = pc.observe(stack, b2s(cut))
+            rep.hist['parse-after:%s' % r_[0]] = rep.hist.get('parse-after:%s' % r_[0], 0) + 1
         out = pc.observe(stack, bits)
         want_fields, want_payload = ref_fields(stack, pkt, st)
         want = ('OK', (tuple(want_fields), want_payload))
